@@ -68,8 +68,10 @@ def _work(args):
             if fs.get('harmless') and same:
                 out['counts'][key + ':harmless-same-answer'] = out['counts'].get(key + ':harmless-same-answer', 0) + 1
                 continue
-            if not same and len(fs['faults']) == 1 and fs['faults'][0]['kind'] == 'flip' and len(r['rows']) == len(baseline):
-                # known finding: a flipped metadata byte (null count / buffer layout) decodes to the same number of rows with different values; nothing checks payload integrity
+            if not same and len(fs['faults']) == 1 and fs['faults'][0]['kind'] == 'flip' and (len(r['rows']) == len(baseline) or r.get('shape') not in ('Concat', None)):
+                # known finding: a flipped metadata byte (null count / buffer layout) decodes to the same number of FRAGMENT rows with different values; nothing checks payload integrity.
+                # The coordinator's row-count check pins the fragment row count, so for a concatenated answer the final count must be unchanged; after a merge stage (two-phase, top-n, gather)
+                # a changed value (e.g. a group key turned non-NULL) may legitimately change the final count
                 out['known'].setdefault('ipc_metadata_bitflip_changes_values_undetected', {'sql': sql, 'nodes': n, 'faults': fs['faults'], 'rows': r['rows'][:8], 'fault_free_rows': baseline[:8]})
                 out['counts'][key + ':known-undetected'] = out['counts'].get(key + ':known-undetected', 0) + 1
                 continue
